@@ -68,6 +68,13 @@ class NodeMock:
     def meets(self, mapping):
         return self._env.invoke_node('meets', self, mapping)
 
+    def __getattr__(self, name):
+        # any other method of Node (has, any, ...) is the repository's own definition, folded on this mock
+        fns = self.__dict__.get('_env').node_fns if '_env' in self.__dict__ else {}
+        if name in fns and not name.startswith('__'):
+            return lambda *a, **k: self._env.it.call(fns[name], [self, *a], k)
+        raise AttributeError(name)
+
     def __iter__(self):
         return iter(self._cov_mapping)
 
